@@ -1,8 +1,9 @@
 """Property -> harness modules.  A module may host conditions of several properties
 (the registry is filtered by property id)."""
 PROPS = {
+    'C13': ['mpgverif.harness.c13_gvf'],
     'C10': ['mpgverif.harness.c10_rules', 'mpgverif.harness.c10_digest', 'mpgverif.harness.c12_index'],
-    'C11': ['mpgverif.harness.c11_coords', 'mpgverif.harness.c11_gene'],
+    'C11': ['mpgverif.harness.c11_coords', 'mpgverif.harness.c11_gene', 'mpgverif.harness.c11_ondisk'],
     'C12': ['mpgverif.harness.c12_index'],
     'C04': ['mpgverif.harness.callvariant_loop', 'mpgverif.harness.c12_index'],
     'C06': ['mpgverif.harness.callvariant_loop'],
